@@ -9,8 +9,8 @@ from props import c04
 from vlib import lin_bracket, Result
 
 ID = "C20"
-LEAN_MODULES = ["NdInterp.Props.C20", "NdInterp.Props.RatTie", "NdInterp.Props.FormulaTie.Lin", "NdInterp.Props.FormulaTie.Bil"]
-THEOREM_FILES = [("NdInterp/Props/C20.lean", "C20_"), ("NdInterp/Props/FormulaTie/Lin.lean", "FT_lin_"), ("NdInterp/Props/FormulaTie/Bil.lean", "FT_bil_"), ("NdInterp/Props/FormulaTie/Lin.lean", "FT_idx_")]
+LEAN_MODULES = ["NdInterp.Props.C20", "NdInterp.Props.RatTie", "NdInterp.Props.FormulaTie.Lin", "NdInterp.Props.FormulaTie.Bil", "NdInterp.Props.FormulaTie.Ctl"]
+THEOREM_FILES = [("NdInterp/Props/C20.lean", "C20_"), ("NdInterp/Props/FormulaTie/Lin.lean", "FT_lin_"), ("NdInterp/Props/FormulaTie/Bil.lean", "FT_bil_"), ("NdInterp/Props/FormulaTie/Lin.lean", "FT_idx_"), ("NdInterp/Props/FormulaTie/Ctl.lean", "FT_ctl_")]
 RULE = ("metamorphic, on the real code: a base case (one query) and variants in which every non-bracketing data row/column is "
         "replaced by NaN, +-inf or random values, or every non-bracketing knot is moved within its neighbours; Linear and Bilinear, "
         "in range and extrapolated (queries incl. the floats adjacent to knots), all lanes, axes and data stored as plain, strided or reversed-stride views (one layout per group); results must be bit-identical at f64 and equal at Q. The base cases also run through "
